@@ -134,6 +134,10 @@ KERNELS = [
          actions={"check_random_state": 1, "self._get_init_population": 2, "self._from_population_g_to_fitness": 3, "self._show_progress": 4,
                   "self._get_new_population": 6, "self._on_generation": 7},
          bool_stream={"self._termitation_check": ("stops", 5)}, not_none={"_on_generation": "has_callback"}, returns_log=True),
+    # ---- a GP mutation at the Python level: Tree values, draws, calls of the translated Tree methods
+    dict(name="shrink_mutation", file="utils/mutations.py", func="shrink_mutation",
+         params=[("tree", "Tree"), ("uniset", "Opaque"), ("proba", "Int"), ("max_level", "Int")], ret="Tree", streams=True,
+         tree_calls={"get_args_id": "find_id_args_from_i", "subtree": "Tree_subtree", "concat": "Tree_concat"}),
     dict(name="tournament_selection", file="utils/selections.py", func="tournament_selection",
          params=[("fitness", "Arr"), ("rank", "Arr"), ("tour_size", "Int"), ("quantity", "Int")], ret="Arr",
          ext_stream={"random_sample": "samples"}),
@@ -143,7 +147,7 @@ LTY = {"Int": "Int", "Arr": "List Int", "Bool": "Bool", "Mat": "List (List Int)"
        "ArrSelf": "List (List Int)"}
 TREE_ATTR = {"_nodes": "nodes", "_n_args": "nargs"}
 DEFAULT = {"Int": "0", "Arr": "[]", "Bool": "false", "Mat": "[]"}
-RESERVED = ("end", "at", "from", "to", "in", "do", "then", "fun", "match", "with", "open", "by", "s", "us", "ns", "fuel", "rolls", "max", "min", "hi0", "samples", "self", "self_nodes", "self_nargs", "log", "stops", "kb", "value_ext")
+RESERVED = ("end", "at", "from", "to", "in", "do", "then", "fun", "match", "with", "open", "by", "s", "us", "ns", "fuel", "rolls", "max", "min", "hi0", "samples", "self", "self_nodes", "self_nargs", "log", "stops", "kb", "value_ext", "tree")
 
 
 class NotRecognised(Exception):
@@ -185,12 +189,14 @@ def bor(*xs):
 class Tr:
     def __init__(self, fn: ast.FunctionDef, cfg: dict):
         self.fn, self.cfg = fn, cfg
-        self.params = dict(cfg["params"])
+        self.params = {n: t for n, t in cfg["params"] if t != "Opaque"}
         self.self_attrs = cfg.get("self_attrs", {})
         self.ext = cfg.get("ext", {})
         self.ext_stream = cfg.get("ext_stream", {})
         self.self_state = cfg.get("self_state", [])
         self.method_uses = cfg.get("method_uses", {})
+        self.tree_calls = cfg.get("tree_calls", {})
+        self.masks: set = set()
         self.opaque_if = cfg.get("opaque_if", {})
         self.actions = cfg.get("actions", {})
         self.bool_stream = cfg.get("bool_stream", {})
@@ -229,6 +235,9 @@ class Tr:
             if t is None:
                 raise NotRecognised(f"unknown name {e.id}")
             return t
+        if isinstance(e, ast.Compare) and len(e.ops) == 1 and isinstance(e.ops[0], ast.Gt) and not isinstance(e.left, ast.Constant) \
+                and self._safe_ty(e.left) == "Arr":
+            return "Arr"
         if isinstance(e, (ast.Compare, ast.BoolOp)) or (isinstance(e, ast.UnaryOp) and isinstance(e.op, ast.Not)):
             return "Bool"
         if isinstance(e, ast.List):
@@ -241,7 +250,9 @@ class Tr:
                 return self.self_attrs[dotted][1]
             return "Int"
         if isinstance(e, ast.Subscript):
-            if isinstance(e.slice, ast.Slice) or is_np(e.value, "r_"):
+            if self.is_sample1(e):
+                return "Int"
+            if isinstance(e.slice, ast.Slice) or is_np(e.value, "r_") or self.is_mask_index(e):
                 return "Arr"
             return {"Mat": "Arr", "Arr": "Int"}.get(self.ty(e.value), "Int")
         if isinstance(e, ast.BinOp) and isinstance(e.op, ast.Mult) and self.ty(e.left) == "Int" and self.ty(e.right) == "Arr":
@@ -253,6 +264,8 @@ class Tr:
                 return "Tree" if self.is_tree_value(f.value) else self.ty(f.value)
             if isinstance(f, ast.Name) and f.id == "Tree":
                 return "Tree"
+            if self.is_tree_call(e):
+                return "Arr" if f.attr == "get_args_id" else "Tree"
             if is_np(f, "empty", "arange", "zeros", "empty_like", "array", "cumsum"):
                 return "Arr"
             if nm in ("sorted", "range"):
@@ -267,6 +280,12 @@ class Tr:
                 return KERNEL_BY_NAME[nm]["ret"]
         return "Int"
 
+    def _safe_ty(self, e):
+        try:
+            return self.ty(e)
+        except NotRecognised:
+            return None
+
     def setlocal(self, name, ty):
         if name in self.params:
             raise NotRecognised(f"assignment to parameter {name}")
@@ -280,6 +299,8 @@ class Tr:
             if isinstance(st, ast.Assign):
                 for t in st.targets:
                     if isinstance(t, ast.Name):
+                        if self.is_mask_expr(st.value):
+                            self.masks.add(t.id)
                         self.setlocal(t.id, self.ty(st.value))
                     elif isinstance(t, ast.Tuple):
                         for el in t.elts:
@@ -317,6 +338,28 @@ class Tr:
             return
         if isinstance(e, ast.IfExp):
             raise NotRecognised("conditional expression")
+        if self.is_sample1(e):
+            for k in e.value.keywords:
+                self.hoist(k.value, lines, env, guarded)
+            if guarded:
+                raise NotRecognised(f"effectful call {ast.unparse(e)} under a short-circuit operator")
+            if not self.streams:
+                raise NotRecognised("random draw in a kernel without streams")
+            t = self.tmp("Int")
+            self.used_streams.add("ns")
+            lines.append(f"{{ s with {t} := Imp.geti ns s.kn, dry := s.dry || decide (ns.length ≤ s.kn), kn := s.kn + 1 }}")
+            env[id(e)] = f"s.{t}"
+            return
+        if self.is_tree_call(e, "get_args_id"):
+            for a in e.args:
+                self.hoist(a, lines, env, guarded)
+            if guarded:
+                raise NotRecognised(f"effectful call {ast.unparse(e)} under a short-circuit operator")
+            _, nargs = self.tree_pair(e.func.value, env)
+            t = self.tmp("Arr")
+            lines.append(f"(match {self.tree_calls['get_args_id']} {self.E(e.args[0], env)} {nargs} with | some v => {{ s with {t} := v }} | none => {{ s with err := true }})")
+            env[id(e)] = f"s.{t}"
+            return
         if self.is_randint1(e):
             for a in e.value.args[:2]:
                 self.hoist(a, lines, env, guarded)
@@ -437,6 +480,25 @@ class Tr:
             return self.E(e.args[0], env), self.E(e.args[1], env)
         raise NotRecognised(f"tree expression {ast.unparse(e)}")
 
+    def tree_value(self, e, L, env):
+        """a Tree-valued expression, possibly a (nested) call of a translated Tree method: emits the calls into L and
+        returns the (nodes, nargs) Lean expressions of the result"""
+        if self.is_tree_call(e) and e.func.attr in ("subtree", "concat"):
+            rn, ra = self.tree_pair(e.func.value, env)
+            args = []
+            for a in e.args:
+                if self._safe_ty(a) == "Tree" or self.is_tree_call(a):
+                    an, aa = self.tree_value(a, L, env)
+                    args += [an, aa]
+                else:
+                    env.update(self.pre([a], L))
+                    args.append(self.E(a, env))
+            tn, ta = self.tmp("Arr"), self.tmp("Arr")
+            L.append(f"(match {self.tree_calls[e.func.attr]} {rn} {ra} {' '.join(args)} with | some v => {{ s with {tn} := Imp.getrow v (0 : Int), {ta} := Imp.getrow v (1 : Int), "
+                     f"err := s.err || decide (v.length ≠ 2) }} | none => {{ s with err := true }})")
+            return f"s.{tn}", f"s.{ta}"
+        return self.tree_pair(e, env)
+
     @staticmethod
     def self_path(e):
         """`self.a.b` -> 'a.b'"""
@@ -453,6 +515,32 @@ class Tr:
         """randint(lo, hi, 1)[0]"""
         return (isinstance(e, ast.Subscript) and isinstance(e.slice, ast.Constant) and e.slice.value == 0 and isinstance(e.value, ast.Call)
                 and callname(e.value.func) == "randint" and len(e.value.args) == 3 and isinstance(e.value.args[2], ast.Constant) and e.value.args[2].value == 1)
+
+    def is_sample1(self, e):
+        """random_sample(range_size=R, quantity=1, replace=True)[0]"""
+        if "random_sample" in self.ext:
+            return False
+        if not (isinstance(e, ast.Subscript) and isinstance(e.slice, ast.Constant) and e.slice.value == 0 and isinstance(e.value, ast.Call)
+                and callname(e.value.func) == "random_sample"):
+            return False
+        kw = {k.arg: k.value for k in e.value.keywords}
+        q = kw.get("quantity", e.value.args[1] if len(e.value.args) > 1 else None)
+        return isinstance(q, ast.Constant) and q.value == 1
+
+    def is_tree_call(self, e, kind=None):
+        """X.get_args_id(i) / X.subtree(i) / X.concat(i, T) on a Tree value X"""
+        ok = (isinstance(e, ast.Call) and isinstance(e.func, ast.Attribute) and e.func.attr in self.tree_calls and self.is_tree_value(e.func.value))
+        return ok and (kind is None or e.func.attr == kind)
+
+    def is_mask_expr(self, e):
+        """<array> > <int> : a boolean mask"""
+        return (isinstance(e, ast.Compare) and len(e.ops) == 1 and isinstance(e.ops[0], ast.Gt) and self.ty(e.left) == "Arr"
+                and self.ty(e.comparators[0]) == "Int")
+
+    def is_mask_index(self, e):
+        """np.arange(len(T), ...)[mask]"""
+        return (isinstance(e, ast.Subscript) and isinstance(e.value, ast.Call) and is_np(e.value.func, "arange") and isinstance(e.slice, ast.Name)
+                and e.slice.id in self.masks)
 
     @staticmethod
     def is_rr(e):
@@ -546,6 +634,8 @@ class Tr:
                 and e.comparators[0].value is None and self.self_path(e.left) in self.not_none:
             v = self.not_none[self.self_path(e.left)]
             return v if isinstance(e.ops[0], ast.IsNot) else f"(! {v})"
+        if self.is_mask_expr(e):
+            return f"(({self.E(e.left, env)}).map fun v => if v > {self.E(e.comparators[0], env)} then (1 : Int) else 0)"
         if isinstance(e, ast.Compare):
             parts, left = [], e.left
             for op, right in zip(e.ops, e.comparators):
@@ -561,6 +651,8 @@ class Tr:
             sym = " && " if isinstance(e.op, ast.And) else " || "
             return "(" + sym.join(self.B(v, env) for v in e.values) + ")"
         if isinstance(e, ast.Subscript):
+            if self.is_mask_index(e):
+                return f"(Imp.whereNZ {self.E(e.slice, env)})"
             if is_np(e.value, "r_"):
                 parts = e.slice.elts if isinstance(e.slice, ast.Tuple) else [e.slice]
                 if any(self.ty(x) != "Arr" for x in parts):
@@ -589,6 +681,8 @@ class Tr:
             if nm in self.ext:
                 return self.ext[nm][0]
             if isinstance(f, ast.Name):
+                if f.id == "len" and len(args) == 1 and self.is_tree_value(args[0]):
+                    return f"(Imp.leni {self.tree_pair(args[0], env)[0]})"
                 if f.id == "len" and len(args) == 1:
                     t = self.ty(args[0])
                     if t == "Mat":
@@ -654,6 +748,10 @@ class Tr:
         if isinstance(e, ast.Subscript) and is_np(e.value, "r_"):
             parts = e.slice.elts if isinstance(e.slice, ast.Tuple) else [e.slice]
             return bor(*[self.oob(x, env) for x in parts])
+        if self.is_mask_index(e):
+            return f"decide (({self.E(e.value.args[0], env)}) ≠ Imp.leni {self.E(e.slice, env)})"
+        if self.is_mask_expr(e):
+            return bor(self.oob(e.left, env), self.oob(e.comparators[0], env))
         if isinstance(e, ast.Subscript) and isinstance(e.slice, ast.Slice):
             sl = e.slice
             parts = [self.oob(e.value, env)]
@@ -771,7 +869,7 @@ class Tr:
                 return L
             if isinstance(t, ast.Name) and self.locals.get(t.id) == "Tree":
                 env = self.pre(list(st.value.args) if isinstance(st.value, ast.Call) and isinstance(st.value.func, ast.Name) else [], L)
-                a, b = self.tree_pair(st.value, env)
+                a, b = self.tree_value(st.value, L, env)
                 n = self.id(t.id)
                 L.append(f"{{ s with {n}__nodes := {a}, {n}__nargs := {b} }}")
                 return L
@@ -1018,7 +1116,7 @@ class Tr:
             else:
                 allf2[n] = t
         fields = "".join(f"  {n} : {LTY[t]} := {DEFAULT[t]}\n" for n, t in sorted(allf2.items()))
-        params = " ".join((f"({self.id(n)}_nodes {self.id(n)}_nargs : List Int)" if t == "Tree" else f"({self.id(n)} : {LTY[t]})") for n, t in cfg["params"])
+        params = " ".join((f"({self.id(n)}_nodes {self.id(n)}_nargs : List Int)" if t == "Tree" else f"({self.id(n)} : {LTY[t]})") for n, t in cfg["params"] if t != "Opaque")
         if self.self_tree:
             params = "(self_nodes self_nargs : List Int) " + params
         if self.self_state:
@@ -1036,7 +1134,7 @@ class Tr:
         extra += "".join(f" ({par} : List Int)" for _, par in self.opaque_if.values())
         extra += "".join(f" ({v} : Bool)" for v in self.not_none.values())
         extra += "".join(f" ({par} : List Int)" for par, _ in self.bool_stream.values())
-        imports = "".join(f"import TFV.Generated.Src.{u}\n" for u in list(self.uses) + list(self.method_uses.values()) + list(self.tree_methods.values()))
+        imports = "".join(f"import TFV.Generated.Src.{u}\n" for u in list(self.uses) + list(self.method_uses.values()) + list(self.tree_methods.values()) + list(self.tree_calls.values()))
         fuel = f"  let fuel : Nat := {cfg['fuel']}\n" if cfg.get("fuel") else ""
         return (f"/- GENERATED by harness/extract/py2lean.py from /repo/src/thefittest/{cfg['file']} ({(cfg.get('cls') + '.') if cfg.get('cls') else ''}{cfg['func']})\n"
                 f"   on every run of the checks that depend on it. Do not edit. -/\n"
